@@ -36,6 +36,7 @@ def check(ctx):
     ctx.rule("R-C17.2", "lexer: line / file bookkeeping flows only into token positions and error reports; layout paths write only cursor and position state")
     ctx.rule("R-C17.3", "a parenthesised primary expression returns the inner node itself")
     ctx.rule("R-C17.4", "the generator never reads coordinates or positions")
+    ctx.rule("R-C17.6", "an operand and the same operand in redundant parentheses are parsed by the same productions: precedence climbing (R-C02.2) and look-ahead guards that admit every token an expression can start with (R-C01.4)")
     ctx.rule("R-C17.5", "redundant parentheses are redundant for the parser too: its binary precedence order is C's (shared with R-C02.1)")
     spec_entries = A.parse_cfg()
 
@@ -198,6 +199,9 @@ def check(ctx):
             ctx.violation("R-C17.3", f"expression-entry:{m_}:{last}", f"{m_} (line {line}) enters _parse_expression after consuming {last}: besides the parenthesised primary expression this is a second rule that consumes `( expression )` "
                           "(or another bracketing), so an operand wrapped in redundant parentheses is parsed by a different production than the bare operand (e.g. `sizeof (a)[0]` vs `sizeof a[0]`)",
                           file=px.rel, function=f"CParser.{m_}", line=line)
+    from . import share
+    share.borrow(ctx, "C02", ("R-C02.2",), "R-C17.6", count=4)
+    share.borrow(ctx, "C01", ("R-C01.4",), "R-C17.6", count=20)
     t_ = S.tables()
     sp_of = {tt: lit for tt, lit in t_.fixed_tokens}
     c02.check_table(ctx, t_.binary_precedence, lambda k: sp_of.get(k), "R-C17.5", (px.rel, "_BINARY_PRECEDENCE"), "parser precedence table")
